@@ -527,8 +527,23 @@ fn report_failure(ev: &mut Ev, p: &Prog, arg: &Arg, j: &Judged, cx: &mut Cx, ori
 // (a) guard differential through source programs
 // ---------------------------------------------------------------------------------------------
 
+/// Does the compiler keep the CALLER's type variables apart from the callee's in `unify` (repair
+/// 10)? Decided on a harmless canary: before the repair `[$, 1] g` inside `h = #<'a>'a` binds g's
+/// `'a` to `'int` only. Crosswise shared-name instances overflow the stack of an unrepaired
+/// compiler (a SIGABRT no handler can catch), so they are generated only when this is true.
+pub fn caller_variables_opaque(cx: &Cx) -> bool {
+    match front("g = #<'a>['a, 'a] { $0 },\nh = #<'a>'a { [$, 1] g },\n&h", cx) {
+        Ok(u) => qverif::catch(|| quiver_core::format::format_type_by_id(&u.program, u.compiled_result_type))
+            .map(|t| t.contains("'a | 'int") || t.contains("'int | 'a"))
+            .unwrap_or(false),
+        Err(_) => false,
+    }
+}
+
 fn guard_differential(ev: &mut Ev, cx: &mut Cx, seed: u64, n: u64) {
     use gen_::{G, GTy};
+    let opaque = caller_variables_opaque(cx);
+    ev.hit(if opaque { "guard:caller-variables-opaque" } else { "guard:caller-variables-shared(crosswise pairs not generated)" });
     for i in 0..n {
         let mut r = Rng::for_case(seed ^ 0x6A4D, i);
         let mut g = G::new(&mut r);
@@ -542,16 +557,27 @@ fn guard_differential(ev: &mut Ev, cx: &mut Cx, seed: u64, n: u64) {
             4 => GTy::Union(vec![base.clone(), g.leaf_ty()]),
             _ => g.ty(2),
         };
+        // a GENERIC caller whose type parameters have the callee's names: its argument type
+        // mentions 't / 'u too (the same leaves abstracted differently, unions mentioning them)
+        let shared = opaque && g.r.chance(1, 4);
+        let arg_ty = if shared {
+            ev.hit("guard:shared-name-generic-caller");
+            let a = abstract_leaves(&arg_ty, &mut g);
+            if g.r.chance(1, 3) { GTy::Union(vec![a, GTy::Var(if g.r.chance(1, 2) { "t".into() } else { "u".into() })]) } else { a }
+        } else {
+            arg_ty
+        };
         let aliases = g.aliases_for(&[&with_vars, &arg_ty]);
         let vars = "<'t, 'u>";
+        let gvars = if shared { vars } else { "" };
         let head = aliases.iter().map(|a| format!("{a},\n")).collect::<String>();
         let p1 = format!(
-            "{head}f = #{vars}{} {{ $ }},\ng = #{} {{ 0 }},\n[&f, &g]",
+            "{head}f = #{vars}{} {{ $ }},\ng = #{gvars}{} {{ 0 }},\n[&f, &g]",
             with_vars.param_src(),
             arg_ty.param_src()
         );
         let p2 = format!(
-            "{head}f = #{vars}{} {{ $ }},\ng = #{} {{ $ f }},\n0",
+            "{head}f = #{vars}{} {{ $ }},\ng = #{gvars}{} {{ $ f }},\n0",
             with_vars.param_src(),
             arg_ty.param_src()
         );
@@ -1017,6 +1043,7 @@ fn main() {
     run_regression_corpus(&mut ev, &mut cx);
 
     // 2. generated programs
+    families::SHARED_NAMES_OK.store(caller_variables_opaque(&cx), std::sync::atomic::Ordering::Relaxed);
     let n_programs = opts.tier.pick(900u64, 30000u64);
     let mut accepted_by_family: std::collections::BTreeMap<String, (u64, u64)> = Default::default();
     for i in 0..n_programs {
